@@ -156,6 +156,16 @@ CHECKS.update({
             BASE_NOTE + " Oracle: Python datetime/calendar.", "3/C18"),
 })
 
+CHECKS.update({
+    "C19": ("exploration",
+            "runtime monitor of the real generators against the third-party libraries' own transition tables; rendered tables compiled and read back under ASan+UBSan",
+            "All zones of the installed pytz and dateutil for 2000..2038, configurations aimed so that a Dec 30/31 change falls "
+            "into the last partial sampling cell, and a seeded lattice of (range, interval, detect_dst); every change the "
+            "library exhibits must be bracketed at adjacent minutes, every item must equal astimezone(), samples must exist; "
+            "rendering is checked by compiling the generated C++ tables and reading every item back.",
+            BASE_NOTE + " pytz 2026.3 / dateutil 2.9 are objects under observation: their tables are the oracle for what their API exhibits.", "3/C19"),
+})
+
 PLANNED = {
 }
 
